@@ -10,7 +10,7 @@ enum K { NUMCHIPS, EMU, PCMRATE, DEVID, LFOEN, LFOFREQ, CHIPTYPE, VOLMODEL, ALLO
          HOOK_RAW, HOOK_NOTE, HOOK_DEBUG, HOOK_LS, HOOK_LE, RESET, BANK, MUSIC, TRACKOPT, CHANEN, SYSEX_DEV, GETBANK_BAD, PLAYPROBE };
 struct Op { K k; long a; long b; std::string name; };
 
-static std::vector<uint8_t> g_bankA, g_bankB, g_badbank, g_song, g_badsong, g_trunc;
+static std::vector<uint8_t> g_bankA, g_bankB, g_badbank, g_song, g_badsong, g_trunc, g_cmf, g_imf;
 static int g_hook_calls[5];
 static void h_raw(void *, OPN2_UInt8, OPN2_UInt8, OPN2_UInt8, const OPN2_UInt8 *, size_t) { g_hook_calls[0]++; }
 static void h_note(void *, int, int, int, int, double) { g_hook_calls[1]++; }
@@ -63,7 +63,7 @@ struct C18Model : mcx::Model {
         add(HOOK_RAW, 1, 0, "setRawEventHook(fn)"); add(HOOK_RAW, 0, 0, "setRawEventHook(NULL)"); add(HOOK_NOTE, 1, 0, "setNoteHook(fn)"); add(HOOK_DEBUG, 1, 0, "setDebugMessageHook(fn)"); add(HOOK_LS, 1, 0, "setLoopStartHook(fn)"); add(HOOK_LE, 1, 0, "setLoopEndHook(fn)"); add(HOOK_LE, 0, 0, "setLoopEndHook(NULL)");
         add(RESET, 0, 0, "reset()");
         add(BANK, 0, 0, "openBankData(A)"); add(BANK, 1, 0, "openBankData(B: lfo on/3, OPNA)"); add(BANK, 2, 0, "openBankData(garbage)"); add(BANK, 3, 0, "openBankData(truncated)"); add(BANK, 4, 0, "openBankData(empty)");
-        add(MUSIC, 0, 0, "openData(song)"); add(MUSIC, 1, 0, "openData(garbage)"); add(MUSIC, 2, 0, "openData(truncated song)"); add(MUSIC, 3, 0, "openData(division 0)");
+        add(MUSIC, 0, 0, "openData(song)"); add(MUSIC, 1, 0, "openData(garbage)"); add(MUSIC, 2, 0, "openData(truncated song)"); add(MUSIC, 3, 0, "openData(division 0)"); add(MUSIC, 4, 0, "openData(well-formed CMF: parsed, then refused)"); add(MUSIC, 5, 0, "openData(well-formed IMF: parsed, then refused)");
         add(TRACKOPT, 0, OPNMIDI_TrackOption_Off, "setTrackOptions(0,Off)"); add(TRACKOPT, 1, OPNMIDI_TrackOption_Solo, "setTrackOptions(1,Solo)"); add(TRACKOPT, 2, OPNMIDI_TrackOption_Off, "setTrackOptions(2,Off)"); add(TRACKOPT, -1, OPNMIDI_TrackOption_Off, "setTrackOptions(SIZE_MAX,Off)"); add(TRACKOPT, 0, 4, "setTrackOptions(0,On|4)");
         add(CHANEN, 3, 0, "setChannelEnabled(3,0)"); add(CHANEN, 3, 1, "setChannelEnabled(3,1)"); add(CHANEN, 16, 0, "setChannelEnabled(16,0)"); add(CHANEN, -1, 0, "setChannelEnabled(SIZE_MAX,0)");
         add(SYSEX_DEV, 0, 0, "sysex master volume -> device 0"); add(SYSEX_DEV, 5, 0, "sysex master volume -> device 5");
@@ -160,7 +160,7 @@ struct C18Model : mcx::Model {
             else { must_fail(rc, "malformed bank"); expect_error_text = true; }
             break; }
         case MUSIC: { const std::vector<uint8_t> &b = o.a == 0 ? g_song : o.a == 1 ? g_badsong : o.a == 2 ? g_trunc : g_badsong; std::vector<uint8_t> z; if(o.a == 3) { z = g_song; z[12] = 0; z[13] = 0; }
-            const std::vector<uint8_t> &use = o.a == 3 ? z : (o.a == 2 ? g_song : b); unsigned long n = o.a == 2 ? (unsigned long)(g_song.size() - 7) : (unsigned long)use.size();
+            const std::vector<uint8_t> &use = o.a == 4 ? g_cmf : o.a == 5 ? g_imf : o.a == 3 ? z : (o.a == 2 ? g_song : b); unsigned long n = o.a == 2 ? (unsigned long)(g_song.size() - 7) : (unsigned long)use.size();
             int rc = opn2_openData(d, use.data(), n);
             if(o.a == 0 && R.bank_loaded) { must_ok(rc); R.song = true; R.song_dc = false; R.tracks = 3; R.trackOff.assign(3, 0); for(int c = 0; c < 16; c++) R.chanOff[c] = false; R.solo = -1; }
             else { if(rc >= 0) v.fail("C18/invalid-accepted/openData", "a malformed music file (or a file without a bank) was accepted"); expect_error_text = true; failed_call = true;
@@ -209,7 +209,7 @@ int main(int argc, char **argv) {
     pl::install_hooks(true);
     { pl::BankSpec m; pl::InsSpec s; s.id = 1; for(int i = 0; i < 128; i++) m.ins[i] = s; pl::BankSpec p; p.percussive = true; pl::InsSpec dd; dd.id = 2; dd.drum_key = 40; for(int i = 27; i < 88; i++) p.ins[i] = dd;
       g_bankA = pl::make_wopn({m, p}, 0, 0, 0); g_bankB = pl::make_wopn({m, p}, 0x0B, 0, 1); g_badbank.assign(64, 'X'); g_trunc.assign(g_bankA.begin(), g_bankA.begin() + 100); }
-    { gm::Track t0, t1, t2; t0.tempo(0, 500000).ev(0, {0x90, 60, 100}).ev(96, {0x80, 60, 0}).eot(0); t1.ev(10, {0x93, 62, 100}).ev(50, {0x83, 62, 0}).eot(0); t2.ev(20, {0x99, 40, 100}).ev(5, {0x89, 40, 0}).eot(0); g_song = gm::smf(1, 96, {t0.d, t1.d, t2.d}); g_badsong.assign(40, 'Q'); }
+    { gm::Track t0, t1, t2; t0.tempo(0, 500000).ev(0, {0x90, 60, 100}).ev(96, {0x80, 60, 0}).eot(0); t1.ev(10, {0x93, 62, 100}).ev(50, {0x83, 62, 0}).eot(0); t2.ev(20, {0x99, 40, 100}).ev(5, {0x89, 40, 0}).eot(0); g_song = gm::smf(1, 96, {t0.d, t1.d, t2.d}); g_badsong.assign(40, 'Q'); g_cmf = gm::seed_cmf(); g_imf = gm::imf(12); }
     C18Model m; m.build();
     return mcx::run_main(argc, argv, m, "C18", 2, 3);
 }
